@@ -27,12 +27,30 @@ type rejectEdge struct {
 }
 
 func tooLargeReturns(r *RT, fn *ssa.Function) map[*ssa.BasicBlock]int64 {
+	return tooLargeReturnsD(r, fn, false)
+}
+
+// tooLargeReturnsD: with deep, a too-large error built by a guard helper of the
+// package and handed on counts too.
+func tooLargeReturnsD(r *RT, fn *ssa.Function, deep bool) map[*ssa.BasicBlock]int64 {
 	out := map[*ssa.BasicBlock]int64{}
+	isTL := func(v ssa.Value) (int64, bool) {
+		k, ok := ExceptionKind(v, "thrift.NewTTransportException")
+		return k, ok && (k == constInt(r, "TRANSPORT_EXCEPTION_REQUEST_TOO_LARGE") || k == constInt(r, "TRANSPORT_EXCEPTION_RESPONSE_TOO_LARGE"))
+	}
 	for ret, vs := range ReturnedValues(fn) {
 		for _, v := range vs {
-			if k, ok := ExceptionKind(v, "thrift.NewTTransportException"); ok &&
-				(k == constInt(r, "TRANSPORT_EXCEPTION_REQUEST_TOO_LARGE") || k == constInt(r, "TRANSPORT_EXCEPTION_RESPONSE_TOO_LARGE")) {
+			if k, ok := isTL(v); ok {
 				out[ret.Block()] = k
+				continue
+			}
+			// the error may be built by a guard helper and handed on
+			if deep && isErrorType(v.Type()) {
+				for _, o := range errorOrigins(r, v, func(x ssa.Value) bool { _, ok := isTL(x); return ok }, 2) {
+					if k, ok := isTL(o); ok {
+						out[ret.Block()] = k
+					}
+				}
 			}
 		}
 	}
@@ -188,6 +206,11 @@ func C12(ctx *core.Ctx) {
 					if u, isU := cond.(*ssa.UnOp); isU && u.Op == token.NOT {
 						cond = u.X
 					}
+					if bo, isBo := cond.(*ssa.BinOp); isBo { // err != nil on the result of an error-returning guard helper
+						if k, isK := bo.Y.(*ssa.Const); isK && k.IsNil() {
+							cond = bo.X
+						}
+					}
 					if pc, isCall := cond.(*ssa.Call); isCall {
 						if g := pc.Call.StaticCallee(); g != nil && g.Pkg == r.Pkg && len(g.Blocks) > 0 && findBufferLen(g) != nil {
 							pred = pc
@@ -249,7 +272,7 @@ func C12(ctx *core.Ctx) {
 					}
 				}
 				// tightness: every rejecting return is reached only when the write really does not fit
-				for blk, kind := range tooLargeReturns(r, fn) {
+				for blk, kind := range tooLargeReturnsD(r, fn, true) {
 					_ = kind
 					for _, p := range blk.Preds {
 						for _, e := range edgeEnvs(p, blk) {
@@ -505,6 +528,44 @@ func C12(ctx *core.Ctx) {
 			}
 		}
 		ctx.Check(ok, "C12.R5", ssax.Name(pm)+" › output buffer bounded by the client limit", fnPos(r, pm), "NewTMemoryOutputBuffer(client.limit)", "requests are encoded into a buffer that is not bounded by the client's limit")
+	}
+	// ---- R10: a rejected append leaves the buffer reset ------------------------------------
+	ctx.Rule("C12.R10", "a rejected append resets the bounded buffer: every too-large return of its methods is preceded by Reset (the error reply is written into the same buffer)", 1)
+	if rs := r.FnOpt("(*TMemoryOutputBuffer).Reset"); rs != nil {
+		isAPI := map[*ssa.Function]bool{} // the appending methods of the buffer's API; each answers for its own rejections
+		for _, fn := range declared {
+			isAPI[fn] = true
+		}
+		for _, fn := range r.Fns {
+			if !isAPI[fn] || fn == rs {
+				continue
+			}
+			ord := 0
+			for blk := range tooLargeReturnsD(r, fn, true) {
+				ret := blk.Instrs[len(blk.Instrs)-1]
+				ord++
+				// Reset here, or the rejection is handed on from a sibling API method (which resets itself)
+				isReset := func(in ssa.Instruction) bool {
+					c, ok := ssax.AsCall(in)
+					return ok && (c.Static == rs || (c.Static != nil && isAPI[c.Static] && c.Static != fn))
+				}
+				isRet := func(in ssa.Instruction) bool { return in == ret }
+				first := fn.Blocks[0].Instrs[0]
+				var bad []*ssa.BasicBlock
+				if !isReset(first) {
+					bad = ssax.PathFrom(fn, first, isRet, isReset)
+				}
+				construct := ssax.Name(fn) + sprintf(" › too-large return #%d leaves the buffer reset", ord)
+				if len(tooLargeReturnsD(r, fn, true)) == 1 {
+					construct = ssax.Name(fn) + " › too-large return leaves the buffer reset"
+				}
+				if bad == nil {
+					ctx.Discharge("C12.R10", construct, r.IPos(ret), "Reset() on every path to the rejection")
+				} else {
+					ctx.Violate("C12.R10", construct, r.IPos(ret), "the append is rejected but the buffer keeps what was written so far: the RESPONSE_TOO_LARGE exception the server writes next lands behind the half-written reply and the client decodes garbage instead of the too-large error", ssax.PathString(r.V.Fset, bad)...)
+				}
+			}
+		}
 	}
 	if rs := r.Fn("C12.R5", "(*TMemoryOutputBuffer).Reset"); rs != nil && guardedWrite != nil {
 		ok := false
